@@ -686,4 +686,317 @@ example : runHistory typeAll [splitCall 2, splitCall 3] =
      .ok [("outputs_0", some (f32 [.unk])), ("outputs_1", some (f32 [.unk])), ("outputs_2", some (f32 [.unk]))]] := by
   decide
 
+/-! ### The supplements' own rules (Compress, Loop) -/
+
+theorem tyLe_refl : ∀ t : Ty, tyLe t t = true
+  | .tensor e none => by simp [tyLe]
+  | .tensor e (some ds) => by simp [tyLe, zip_all_dimLe_refl ds]
+  | .seq t => by simp [tyLe, tyLe_refl t]
+  | .opt t => by simp [tyLe, tyLe_refl t]
+
+/-- Compress: whatever the supplement answers has the input's element type -/
+theorem compress_keeps_elem (e : Nat) (ish : Option (List Dim)) (cond : Ty) (axis : Option Int) (t : Ty)
+    (h : compressOwn (.tensor e ish) cond axis = .ok t) : ∃ sh, t = .tensor e sh := by
+  cases cond with
+  | tensor ce csh =>
+    simp only [compressOwn] at h
+    split at h
+    · exact ⟨none, by injection h with h; exact h.symm⟩
+    · split at h
+      · cases h
+      · split at h
+        · cases h
+        · split at h
+          · exact ⟨_, by injection h with h; exact h.symm⟩
+          · exact ⟨_, by injection h with h; exact h.symm⟩
+          · split at h
+            · exact ⟨_, by injection h with h; exact h.symm⟩
+            · cases h
+  | seq t' => simp [compressOwn] at h
+  | opt t' => simp [compressOwn] at h
+
+/-- Compress without an axis: a vector of unknown length, whatever is known about the input's rank
+    (what ONNX infers; the point of fix `2f0b661`) -/
+theorem compress_no_axis_vector (e : Nat) (ish : Option (List Dim)) (cond : Ty) (t : Ty)
+    (h : compressOwn (.tensor e ish) cond none = .ok t) : t = .tensor e (some [Dim.unk]) := by
+  cases cond with
+  | tensor ce csh =>
+    simp only [compressOwn] at h
+    split at h
+    · rename_i hc; simp at hc
+    · split at h
+      · cases h
+      · split at h
+        · cases h
+        · injection h with h; exact h.symm
+  | seq t' => simp [compressOwn] at h
+  | opt t' => simp [compressOwn] at h
+
+/-- Compress with an axis keeps the rank of an input of known rank -/
+theorem compress_axis_rank (e : Nat) (ds : List Dim) (cond : Ty) (a : Int) (t : Ty)
+    (h : compressOwn (.tensor e (some ds)) cond (some a) = .ok t) :
+    ∃ ds', t = .tensor e (some ds') ∧ ds'.length = ds.length := by
+  cases cond with
+  | tensor ce csh =>
+    simp only [compressOwn] at h
+    split at h
+    · rename_i hc; simp at hc
+    · split at h
+      · cases h
+      · split at h
+        · cases h
+        · split at h
+          · injection h with h; exact ⟨_, h.symm, setUnkAt_length _ _⟩
+          · cases h
+  | seq t' => simp [compressOwn] at h
+  | opt t' => simp [compressOwn] at h
+
+/-- the rule before the fix forgot the vector: same call, weaker answer -/
+theorem compress_old_forgets_vector_counterexample :
+    compressOwnOld (.tensor 1 none) (.tensor 9 (some [.const 2])) none = .ok (.tensor 1 none)
+    ∧ compressOwn (.tensor 1 none) (.tensor 9 (some [.const 2])) none = .ok (.tensor 1 (some [Dim.unk])) := by
+  decide
+
+example : compressOwn (.tensor 1 (some [.const 2, .sym "N"])) (.tensor 9 (some [.const 2])) (some (-1))
+    = .ok (.tensor 1 (some [.const 2, .unk])) := by decide
+example : compressOwn (.tensor 1 (some [.const 2, .sym "N"])) (.tensor 9 (some [.const 2])) (some 2)
+    = .error .inference := by decide
+example : compressOwn (.tensor 1 (some [.const 2])) (.tensor 7 (some [.const 2])) none = .error .inference := by decide
+example : compressOwn (.tensor 1 (some [.const 2])) (.tensor 9 (some [])) none = .ok (.tensor 1 (some [.unk])) := by decide
+example : compressOwn (.tensor 1 (some [.const 2])) (.tensor 9 (some [.const 2, .const 2])) none = .error .inference := by decide
+
+/-! Loop -/
+
+/-- the Loop supplement never changes which outputs exist -/
+theorem loopOwn_keys (results args : List (Option Ty)) (std : List (String × Option Ty)) :
+    (loopOwn results args std).map Prod.fst = std.map Prod.fst := by
+  simp only [loopOwn]
+  split
+  · exact loopOverlay_keys _ _
+  · rfl
+
+/-- **the scan outputs are the standard routine's**: the supplement speaks about the loop-carried
+    outputs only - whatever is known about the trip count or the condition, nothing is derived for
+    the outputs after them -/
+theorem loopOwn_scan_untouched (results args : List (Option Ty)) (std : List (String × Option Ty)) :
+    (loopOwn results args std).drop (min results.length args.length)
+      = std.drop (min results.length args.length) := by
+  simp only [loopOwn]
+  split
+  · have := loopOverlay_drop (List.zip results args) std
+    simpa [List.length_zip] using this
+  · rfl
+
+/-- **soundness of the reported carried type**: when the body's result refines the declared argument
+    type, the type the supplement reports is refined by BOTH - it holds for the initial value (zero
+    iterations) and for a result of the body (one or more) -/
+theorem loopCommon_sound (r a : Ty) (h : loopRefines (some r) (some a) = true) :
+    tyLe r (loopCommon r a) = true ∧ tyLe a (loopCommon r a) = true := by
+  cases r with
+  | tensor re rsh =>
+    cases a with
+    | tensor ae ash =>
+      simp only [loopRefines] at h
+      split at h
+      · cases h
+      · rename_i hne
+        have hre : re = ae := by simpa using hne
+        subst hre
+        cases ash with
+        | none => cases rsh <;> simp [loopCommon, tyLe]
+        | some as =>
+          cases rsh with
+          | none => simp at h
+          | some rs =>
+            simp only [Bool.and_eq_true, beq_iff_eq] at h
+            have hl : as.length = rs.length := h.1.symm
+            have := common_dims_sound as rs hl
+            simp [loopCommon, tyLe, List.length_zip, hl, this.1, this.2]
+    | seq t => simp [loopRefines] at h
+    | opt t => simp [loopRefines] at h
+  | seq t =>
+    cases a with
+    | tensor ae ash => simp [loopRefines] at h
+    | seq t' => simp [loopRefines] at h; subst h; simp [loopCommon, tyLe_refl]
+    | opt t' => simp [loopRefines] at h
+  | opt t =>
+    cases a with
+    | tensor ae ash => simp [loopRefines] at h
+    | seq t' => simp [loopRefines] at h
+    | opt t' => simp [loopRefines] at h; subst h; simp [loopCommon, tyLe_refl]
+
+/-- before fix `bd04552` the body's result type was reported as it is: not a type of the initial
+    value when the body changes a dimension (`f32[2]` fed, body yields `f32[3]`) -/
+theorem loop_old_unsound_counterexample :
+    loopOwnOld [some (.tensor 1 (some [.const 3]))] [("v_final_and_scan_outputs_0", some (.tensor 1 none))]
+      = [("v_final_and_scan_outputs_0", some (.tensor 1 (some [.const 3])))]
+    ∧ tyLe (.tensor 1 (some [.const 2])) (.tensor 1 (some [.const 3])) = false
+    ∧ loopOwn [some (.tensor 1 (some [.const 3]))] [some (.tensor 1 (some [.const 2]))]
+        [("v_final_and_scan_outputs_0", some (.tensor 1 none))]
+      = [("v_final_and_scan_outputs_0", some (.tensor 1 none))] := by
+  decide
+
+example : loopOwn [some (.tensor 1 (some [.const 2, .sym "N"]))] [some (.tensor 1 (some [.const 2, .unk]))]
+    [("o_0", some (.tensor 1 none)), ("o_1", some (.tensor 1 (some [.unk, .const 4])))]
+    = [("o_0", some (.tensor 1 (some [.const 2, .unk]))), ("o_1", some (.tensor 1 (some [.unk, .const 4])))] := by decide
+
+/-! ### Types survive the trip through TypeProtos (`Type._to_onnx` / `Type._from_onnx`) -/
+
+theorem fromProto_toProto_dim (d : Dim) : fromProtoDim (toProtoDim d) = normDim d := by
+  cases d with
+  | const n => rfl
+  | sym s => by_cases h : s = "" <;> simp [toProtoDim, fromProtoDim, normDim, h]
+  | unk => rfl
+
+/-- **round trip**: what `_from_onnx` reads back from `_to_onnx` is the type itself (an empty
+    dimension name being the unknown dimension): rank 0 stays rank 0, unknown rank stays unknown, a
+    dimension of size 0 stays 0, symbolic names are kept -/
+theorem fromProto_toProto : ∀ t : Ty, fromProto (toProto t) = normTy t
+  | .tensor e none => rfl
+  | .tensor e (some ds) => by
+    simp only [toProto, fromProto, normTy, Option.map_some, List.map_map]
+    congr 2
+    apply List.map_congr_left
+    intro d _
+    exact fromProto_toProto_dim d
+  | .seq t => by simp [toProto, fromProto, normTy, fromProto_toProto t]
+  | .opt t => by simp [toProto, fromProto, normTy, fromProto_toProto t]
+
+/-- rank 0 is not unknown rank, in either direction -/
+theorem rank0_is_not_unknown (e : Nat) :
+    toProto (.tensor e (some [])) ≠ toProto (.tensor e none)
+    ∧ fromProto (.tensor e (some [])) ≠ fromProto (.tensor e none) := by
+  constructor <;> simp [toProto, fromProto]
+
+/-- a dimension of size 0 is not an unknown dimension, in either direction -/
+theorem zero_dim_is_not_unknown :
+    toProtoDim (.const 0) ≠ toProtoDim .unk ∧ fromProtoDim (.value 0) ≠ fromProtoDim .unset := by
+  constructor <;> simp [toProtoDim, fromProtoDim]
+
+/-- `_to_onnx` loses nothing: it is injective on types without empty dimension names -/
+theorem toProto_injective (t t' : Ty) (h : normTy t = t) (h' : normTy t' = t')
+    (heq : toProto t = toProto t') : t = t' := by
+  rw [← h, ← h', ← fromProto_toProto, ← fromProto_toProto, heq]
+
+example : fromProto (toProto (.seq (.tensor 1 (some [.const 0, .sym "N", .unk, .sym ""]))))
+    = .seq (.tensor 1 (some [.const 0, .sym "N", .unk, .unk])) := by decide
+
+/-! ### What a supplement may do to the types -/
+
+/-- **a supplement that only refines**: if the operator's own rules, applied to any standard answer,
+    return output by output a type that refines it (`refinesAll`), then whatever the supplemented
+    constructor returns refines what the standard constructor returns for the same call - it may say
+    more than ONNX, never less and nothing else. (`_partial`: the hypothesis is a property of the
+    rules; it holds for Compress / Loop as far as observed on every run by the model-free oracle, and
+    fails for the ml operators - `supplement_replacing_counterexample`.) -/
+theorem supplemented_refines_partial (Infer : InferFn)
+    (own : Call → List (String × Option Ty) → Except Err (List (String × Option Ty))) (c : Call)
+    (hown : ∀ std r, own c std = .ok r → refinesAll r std = true)
+    (r : List (String × Option Ty)) (h : constructSupplemented Infer own c = .ok r) :
+    ∃ std, construct Infer c = .ok std ∧ refinesAll r std = true := by
+  simp only [constructSupplemented] at h
+  split at h
+  · cases h
+  · rename_i std hstd
+    exact ⟨std, hstd, hown std r h⟩
+
+/-- rules that *replace* the judgement (the ml operators: no type at all when the input's rank is
+    unknown) do not refine: the standard routine types both outputs, the replacement none -/
+theorem supplement_replacing_counterexample :
+    constructSupplemented topkInfer (fun _ std => .ok (std.map (fun p => (p.1, none)))) topkCall
+      = .ok [("Values", none), ("Indices", none)]
+    ∧ refinesAll [("Values", none), ("Indices", none)]
+        [("Values", some (f32 [.const 2, .unk])), ("Indices", some (.tensor 7 (some [.const 2, .unk])))] = false := by
+  decide
+
+/-- `stripUnk_keeps` needs its hypothesis: a dimension the CALLER named `unk__0` is stripped with the
+    invented ones (known finding `types-differ:user-dim-named-unk__`) -/
+theorem stripUnk_user_named_unk_counterexample :
+    stripUnk (.tensor 1 (some [.sym "unk__0", .const 2])) = .tensor 1 (some [.unk, .const 2])
+    ∧ stripUnk (.tensor 1 (some [.sym "unk__0", .const 2])) ≠ .tensor 1 (some [.sym "unk__0", .const 2]) := by
+  decide
+
+example : refinesAll [("o", some (.tensor 1 (some [.const 2, .unk])))] [("o", some (.tensor 1 none))] = true := by decide
+example : refinesAll [("o", some (.tensor 1 none))] [("o", some (.tensor 1 (some [.unk])))] = false := by decide
+example : refinesAll [("o", some (.tensor 7 none))] [("o", some (.tensor 1 none))] = false := by decide
+
+/-! ### How the constructors with a body type the body's formal arguments -/
+
+/-- Loop: the formals after (iteration, condition) are the operands' own types, in order -/
+theorem loop_formals_carried (vs : List Ty) : (loopFormals vs).drop 2 = vs := rfl
+
+/-- `_partial`: spox's formals agree with the specification's *after the first two* ... -/
+theorem loop_formals_partial (vs : List Ty) : (loopFormals vs).drop 2 = (loopFormalsSpec vs).drop 2 := rfl
+
+/-- ... and never on the first two: iteration number and condition are declared `(1,)`, the
+    specification (and ONNX's inference) has scalars - a scalar `cond` operand is rejected at the call,
+    a `(1,)` one accepted (known findings `raises-but-onnx-accepts:Loop`, `accepts-but-onnx-rejects:Loop`) -/
+theorem loop_formals_cond_shape_counterexample (vs : List Ty) :
+    (loopFormals vs).take 2 ≠ (loopFormalsSpec vs).take 2 := by
+  simp [loopFormals, loopFormalsSpec]
+
+/-- Scan, one scan input of known rank: the formal is the operand with its FIRST axis removed -/
+theorem scan_slice_drops_axis0 (e : Nat) (d : Dim) (ds : List Dim) :
+    scanSliceFormal (.tensor e (some (d :: ds))) = some (.tensor e (some ds)) := rfl
+
+/-- `_partial`: for a scan input scanned along axis 0 (the default) spox's formal is the slice the
+    specification gives the body ... -/
+theorem scan_formals_axis0_partial (t : Ty) : scanSliceFormal t = scanSliceSpec t 0 := by
+  cases t with
+  | tensor e sh => cases sh with
+    | none => rfl
+    | some ds => cases ds <;> rfl
+  | seq t => rfl
+  | opt t => rfl
+
+/-- ... and for another axis it is not: `scan_input_axes` is ignored when the body is typed (known
+    findings `…:Scan:…:nonzero-scan-input-axes`): f32[2,3] scanned along axis 1 - the body should see
+    f32[2], spox declares f32[3] -/
+theorem scan_formals_nonzero_axis_counterexample :
+    scanSliceFormal (.tensor 1 (some [.const 2, .const 3])) = some (.tensor 1 (some [.const 3]))
+    ∧ scanSliceSpec (.tensor 1 (some [.const 2, .const 3])) 1 = some (.tensor 1 (some [.const 2])) := by
+  decide
+
+/-- Scan with `num_scan_inputs = n ≤ len`: the state formals are the first `len - n` operands
+    unchanged -/
+theorem scan_formals_state (state scan : List Ty) (hs : ∀ t ∈ state, ∃ e sh, t = .tensor e sh)
+    (fs : List Ty) (h : scanFormals (state ++ scan) scan.length = some fs) : fs.take state.length = state := by
+  have hk : ((state ++ scan).length : Int) - (scan.length : Int) = (state.length : Int) := by
+    simp [List.length_append]
+  simp only [scanFormals, hk, pyTake, pyDrop] at h
+  have hneg : ¬ ((state.length : Int) < 0) := by omega
+  simp only [hneg, if_false, Int.toNat_natCast, List.take_left', List.drop_left'] at h
+  clear hk hneg
+  revert fs h
+  induction state with
+  | nil => intro fs h; simp
+  | cons t ts ih =>
+    intro fs h
+    obtain ⟨e, sh, rfl⟩ := hs _ (List.mem_cons_self)
+    simp only [List.map_cons, List.cons_append, stateFormal, allSome] at h
+    cases hrest : allSome (ts.map stateFormal ++ scan.map scanSliceFormal) with
+    | none => simp [hrest] at h
+    | some rest =>
+      simp only [hrest, Option.map_some, Option.some.injEq] at h
+      subst h
+      have := ih (fun t ht => hs t (List.mem_cons_of_mem _ ht)) rest hrest
+      simp [this]
+
+/-- SequenceMap: the first formal is the element type of the sequence operand -/
+theorem seqmap_formals_elem (t : Ty) (add : List Ty) (fs : List Ty)
+    (h : seqMapFormals (.seq t) add = some fs) : fs.head? = some t ∧ fs.length = add.length + 1 := by
+  simp only [seqMapFormals, Option.some.injEq] at h
+  subst h
+  simp
+
+example : scanFormals [.tensor 1 (some [.const 4]), .tensor 7 (some [.sym "T", .const 2]), .tensor 7 none] 2
+    = some [.tensor 1 (some [.const 4]), .tensor 7 (some [.const 2]), .tensor 7 none] := by decide
+/-- `num_scan_inputs` larger than the operand list: Python's negative slice bounds -/
+example : scanFormals [.tensor 1 (some [.const 4]), .tensor 7 (some [.const 3, .const 2])] 3
+    = some [.tensor 1 (some [.const 4]), .tensor 7 (some [.const 2])] := by decide
+example : scanFormals [.seq (.tensor 1 none)] 1 = none := by decide
+example : seqMapFormals (.seq (.tensor 1 (some [.const 2]))) [.seq (.tensor 7 none), .tensor 9 (some [])]
+    = some [.tensor 1 (some [.const 2]), .tensor 7 none, .tensor 9 (some [])] := by decide
+example : seqMapFormals (.tensor 1 none) [] = none := by decide
+
 end C05
